@@ -960,6 +960,44 @@ Definition exec_all (w : world) (o : op) : world * list obs :=
         else ((if f_indep f then sync_numrecs_all w id f else w), same_all w NC_NOERR []))
   | OClose _ =>
       with_file (fun id f => match do_close w id f with Some r => r | None => taint_out end)
+  | OAbort _ =>
+      with_file (fun id f =>
+        let obs_of (f2 : filest) :=
+            map (fun r => let rk := get_rank f2 r in
+                          let pend := match rk_reqs rk with [] => false | _ => true end in
+                          (r, (if pend then NC_EPENDING else NC_NOERR), fst (dump_slots rk))) ranks in
+        if f_isnew f then
+          (* newly created and never enddef-ed: the file is removed *)
+          (put_file (set_disk w (f_slot f) empty_disk) id None, obs_of f)
+        else if f_indef f then
+          (* after redef: the new definitions are discarded, nothing was written *)
+          (put_file w id None, obs_of f)
+        else
+          (* data mode: same as close *)
+          match do_close w id f with Some r => r | None => taint_out end)
+  | OFillVarRec _ varid recno =>
+      with_file (fun id f =>
+        let h := f_hdr f in
+        (* NOTE the dispatcher computes these errors; the model lists them in its order *)
+        if f_rdonly f then (w, same_all w NC_EPERM [])
+        else if f_indef f then (w, same_all w NC_EINDEFINE [])
+        else if varid =? -1 then (w, same_all w NC_EGLOBAL [])
+        else if (varid <? 0) || (varid >=? Zlen (h_vars h)) then (w, same_all w NC_ENOTVAR [])
+        else
+          let v := znth (h_vars h) varid (mkvar [] [] [] 0 0 true) in
+          if negb (is_recvar (h_dims h) v) then (w, same_all w NC_ENOTRECVAR [])
+          else if f_indep f then (w, same_all w NC_EINDEP [])
+          else if v_nofill v && (match find_att (v_atts v) fillvalue_name with None => true | Some _ => false end)
+          then (w, same_all w NC_ENOTFILL [])
+          else if negb (fill_att_ok v) then taint_out
+          else if recno <? 0 then taint_out
+          else
+            let n := var_nelems_per_rec (var_shape (h_dims h) v) in
+            let d := dk_write (disk_of w f) (v_begin v + l_recsize (f_lay f) * recno)
+                              (repeat_bytes (var_fill_bytes v) n) in
+            let w1 := set_disk w (f_slot f) d in
+            let w2 := coll_numrecs_sync w1 id f (map (fun _ => Some (recno + 1)) (f_ranks f)) in
+            (w2, same_all w NC_NOERR []))
   | OInq _ =>
       with_file (fun id f => (w, map (fun r => (r, NC_NOERR, inq_toks f r)) ranks))
   | OInqNumrecs _ =>
